@@ -71,6 +71,108 @@ fn gen_q(ctx: &mut Ctx) -> (f32, &'static str) {
     }
 }
 
+/// integer value of the width/signedness the kind prescribes (or a 64-bit one when `wide`)
+fn int_value(kind: &TypeInfoKind, v: i128, wide: bool) -> (Value, &'static str) {
+    match (kind, wide) {
+        (TypeInfoKind::SignedFixedPoint(FloatWidth::Width32), false) => (Value::I32(v as i32), "I32"),
+        (TypeInfoKind::UnsignedFixedPoint(FloatWidth::Width32), false) => (Value::U32(v as u32), "U32"),
+        (TypeInfoKind::SignedFixedPoint(_), _) => (Value::I64(v as i64), "I64"),
+        _ => (Value::U64(v as u64), "U64"),
+    }
+}
+
+fn offset_for(ctx: &mut Ctx, kind: &TypeInfoKind, o: i128) -> FixedPointValue {
+    let w32 = matches!(kind, TypeInfoKind::SignedFixedPoint(FloatWidth::Width32) | TypeInfoKind::UnsignedFixedPoint(FloatWidth::Width32));
+    if (w32 || ctx.rng.chance(1, 3)) && o >= i32::MIN as i128 && o <= i32::MAX as i128 {
+        FixedPointValue::I32(o as i32)
+    } else {
+        FixedPointValue::I64(o as i64)
+    }
+}
+
+/// numerically delicate families: values on f64 rounding ties, products a hair below an
+/// integer, exact powers of two around 2^63 / 2^64 / 2^53, each with offsets that keep the
+/// sum inside the range where the property prescribes the exact result
+fn special_family(ctx: &mut Ctx, kind: &TypeInfoKind) -> Option<(Value, &'static str, f32, &'static str, Option<FixedPoint>)> {
+    match ctx.rng.below(3) {
+        0 => {
+            // rounding ties of the integer -> f64 conversion: v = 2^e + m*ulp + ulp/2 + {-1,0,1}
+            let e = ctx.rng.range(54, 63) as u32;
+            let ulp: u128 = 1u128 << (e - 52);
+            let m = ctx.rng.next() as u128 & ((1u128 << 52) - 1);
+            let d = ctx.rng.below(3) as i128 - 1;
+            let v = ((1u128 << e) + m * ulp + ulp / 2) as i128 + d;
+            let signed = matches!(kind, TypeInfoKind::SignedFixedPoint(_));
+            if signed && v >= (1i128 << 63) {
+                return None;
+            }
+            let (value, vname) = int_value(kind, v, true);
+            let (q, _qname): (f32, &'static str) = *ctx.rng.pick(&[(0.5, "0.5"), (0.25, "0.25"), (1.0, "1"), (9.5367431640625e-7, "2^-20"), (1e-9, "1e-9")]);
+            let p = ((v as f64) * q as f64).trunc();
+            let o: i128 = if p >= 9.2e18 {
+                -(ctx.rng.range(1 << 62, (1 << 63) - 1) as i128) - ctx.rng.below(2) as i128
+            } else {
+                *ctx.rng.pick(&[0i128, 7, -50, 1 << 30, -(1 << 30), 1 << 40, -5]) + ctx.rng.below(3) as i128
+            };
+            let offset = offset_for(ctx, kind, o);
+            Some((value, vname, q, "tie_family", Some(FixedPoint { quantization: q, offset })))
+        }
+        1 => {
+            // decimal quantizations: v*q lands a hair below / above an integer
+            let q: f32 = *ctx.rng.pick(&[0.1f32, 0.01, 0.001, 0.2, 0.05, 1e-4, 0.3, 0.7, 0.9, 1.1, 0.99, 0.125, 1e-5]);
+            let n = match ctx.rng.below(3) {
+                0 => ctx.rng.range(1, 1000),
+                1 => ctx.rng.range(1, 1_000_000),
+                _ => ctx.rng.range(1, 20_000_000),
+            };
+            let v = ((n as f64) / (q as f64)).round() as i128 + ctx.rng.below(3) as i128 - 1;
+            let w32 = matches!(kind, TypeInfoKind::SignedFixedPoint(FloatWidth::Width32) | TypeInfoKind::UnsignedFixedPoint(FloatWidth::Width32));
+            if v < 0 || (w32 && v > i32::MAX as i128) {
+                return None;
+            }
+            let (value, vname) = int_value(kind, v, false);
+            let o: i128 = match ctx.rng.below(8) {
+                0 => 1 << 28,
+                1 => 1 << 30,
+                2 => i32::MAX as i128 - ctx.rng.below(100) as i128,
+                3 => 1 << 40,
+                4 => -(ctx.rng.below(1000) as i128),
+                5 => 0,
+                6 => (1 << 53) + ctx.rng.below(5) as i128,
+                _ => ctx.rng.next() as i64 as i128 >> ctx.rng.below(40),
+            };
+            let offset = offset_for(ctx, kind, o);
+            Some((value, vname, q, "near_integer_family", Some(FixedPoint { quantization: q, offset })))
+        }
+        _ => {
+            // exact powers of two: v = 2^a, q = 2^b, product 2^(a+b) around 2^53, 2^62..2^64
+            let target = *ctx.rng.pick(&[63i32, 63, 62, 64, 53, 52, 31, 32]);
+            let a = ctx.rng.range(0, 63) as i32;
+            let b = target - a;
+            if !(-120..=120).contains(&b) {
+                return None;
+            }
+            let signed = matches!(kind, TypeInfoKind::SignedFixedPoint(_));
+            let w32 = matches!(kind, TypeInfoKind::SignedFixedPoint(FloatWidth::Width32) | TypeInfoKind::UnsignedFixedPoint(FloatWidth::Width32));
+            let wide = !w32 || a > 30;
+            if (signed && a >= 63) || (!wide && a > 30) {
+                return None;
+            }
+            let v = (1i128 << a) + *ctx.rng.pick(&[0i128, 0, 0, -1, 1]);
+            let (value, vname) = int_value(kind, v, wide);
+            let q = (2.0f32).powi(b);
+            let p = ((v as f64) * q as f64).trunc();
+            let o: i128 = if p >= 9.2e18 {
+                *ctx.rng.pick(&[-1i128, -2, -200, i64::MIN as i128, -(1 << 62), -(1 << 31)])
+            } else {
+                *ctx.rng.pick(&[-1i128, 0, 1, -200, 1 << 31, (1 << 62) - 1])
+            };
+            let offset = offset_for(ctx, kind, o);
+            Some((value, vname, q, "power_of_two_family", Some(FixedPoint { quantization: q, offset })))
+        }
+    }
+}
+
 impl Monitor for M {
     fn case(&mut self, ctx: &mut Ctx) {
         let batch = if ctx.light() { 8 } else { BATCH };
@@ -89,35 +191,41 @@ impl Monitor for M {
                 kind,
                 TypeInfoKind::SignedFixedPoint(_) | TypeInfoKind::UnsignedFixedPoint(_)
             );
-            let (value, vname) = if fixed_kind && ctx.rng.chance(3, 4) {
-                // integer values, all widths
-                let a = ctx.rng.special64();
-                match ctx.rng.below(8) {
-                    0 => (Value::U8(a as u8), "U8"),
-                    1 => (Value::U16(a as u16), "U16"),
-                    2 => (Value::U32(a as u32), "U32"),
-                    3 => (Value::U64(a), "U64"),
-                    4 => (Value::I8(a as i8), "I8"),
-                    5 => (Value::I16(a as i16), "I16"),
-                    6 => (Value::I32(a as i32), "I32"),
-                    _ => (Value::I64(a as i64), "I64"),
-                }
+            let special = if fixed_kind && ctx.rng.chance(1, 3) { special_family(ctx, &kind) } else { None };
+            let (value, vname, q, qname, fp) = if let Some(x) = special {
+                x
             } else {
-                gen_any_value(ctx)
-            };
-            let (q, qname) = gen_q(ctx);
-            let fp = if ctx.rng.chance(5, 6) {
-                let o = ctx.rng.special64();
-                Some(FixedPoint {
-                    quantization: q,
-                    offset: if ctx.rng.chance(1, 2) {
-                        FixedPointValue::I32(o as i32)
-                    } else {
-                        FixedPointValue::I64(o as i64)
-                    },
-                })
-            } else {
-                None
+                let (value, vname) = if fixed_kind && ctx.rng.chance(3, 4) {
+                    // integer values, all widths
+                    let a = ctx.rng.special64();
+                    match ctx.rng.below(8) {
+                        0 => (Value::U8(a as u8), "U8"),
+                        1 => (Value::U16(a as u16), "U16"),
+                        2 => (Value::U32(a as u32), "U32"),
+                        3 => (Value::U64(a), "U64"),
+                        4 => (Value::I8(a as i8), "I8"),
+                        5 => (Value::I16(a as i16), "I16"),
+                        6 => (Value::I32(a as i32), "I32"),
+                        _ => (Value::I64(a as i64), "I64"),
+                    }
+                } else {
+                    gen_any_value(ctx)
+                };
+                let (q, qname) = gen_q(ctx);
+                let fp = if ctx.rng.chance(5, 6) {
+                    let o = ctx.rng.special64();
+                    Some(FixedPoint {
+                        quantization: q,
+                        offset: if ctx.rng.chance(1, 2) {
+                            FixedPointValue::I32(o as i32)
+                        } else {
+                            FixedPointValue::I64(o as i64)
+                        },
+                    })
+                } else {
+                    None
+                };
+                (value, vname, q, qname, fp)
             };
             let arg = Argument {
                 type_info: TypeInfo {
@@ -215,7 +323,7 @@ impl Monitor for M {
 
     fn describe(&self, ctx: &Ctx) -> J {
         super::describe(
-            "arguments built directly: every kind (19) x every value variant (15) x fixed-point data absent / 32-bit / 64-bit offset x quantization classes (+-0, +-1, 0.01, 0.5, 2, 1e+-30, subnormal, +-inf, NaN, random bits) x offsets (0, extremes, small +-, powers of two, random); biased to the fixed-point kinds with integer values. distinct = (kind, value variant, fp present, quantization class, offset sign, outcome, value demanded); non-trivial = fixed-point kind with data and an integer value",
+            "arguments built directly: every kind (19) x every value variant (15) x fixed-point data absent / 32-bit / 64-bit offset x quantization classes (+-0, +-1, 0.01, 0.5, 2, 1e+-30, subnormal, +-inf, NaN, random bits) x offsets (0, extremes, small +-, powers of two, random); biased to the fixed-point kinds with integer values; one third of the fixed-point cases come from numerically delicate families: values on rounding ties of the integer->f64 conversion (2^e + m*ulp + ulp/2 +-1, e=54..63), decimal quantizations with v = round(n/q)+-1 (products a hair below/above an integer) with large offsets, exact powers of two with product 2^63 / 2^62 / 2^64 / 2^53 and negative offsets. distinct = (kind, value variant, fp present, quantization class, offset sign, outcome, value demanded); non-trivial = fixed-point kind with data and an integer value",
             &["p = trunc((v as f64)*(q as f64)); the exact value is demanded only when p >= 0 and 0 <= p+offset < 2^63, as the property states; elsewhere only totality"],
             &[("value_demanded_and_equal", super::scaled(ctx, 1000)), ("value_demanded_and_equal.negative_offset", super::scaled(ctx, 100)), ("none_demanded_and_none", super::scaled(ctx, 1000))],
         )
